@@ -4,7 +4,7 @@ number of consumers.
 
 * `read_task` — `RSt`/`rstep`: `dl_state`, `awaiting_linked`, `awaiting_synced`, `registered`, `current`,
   `sync_event`, `SINGLE_FRAME_STATE` (`sync_current` vs `sync_only`), `is_active` (the "no consumers" timeout is
-  armed ⇔ `task_state` is `Some`), removal of consumers whose channel failed, `unlink` of everybody on exit.
+  armed ⇔ `task_state` is `Some`; armed only when all three lists are empty), removal of consumers whose channel failed, `unlink` of everybody on exit.
   One `REv` = one iteration of the task's loop *including* the flush that the next iteration starts with
   (in lock-step the flush has always run before the next event is taken, see NOTES-C07.md).
 * `write_task` — `WSt`/`wmicro`/`winput`: `send_link` before the loop, `Idle`/`Writing` × {`FLUSHED`,
@@ -52,12 +52,11 @@ inductive Note
 inductive Dl | init | linked | synced
   deriving DecidableEq, Repr
 
-/-- A consumer (`DownlinkSender`): `late` is a ghost flag (attached when `dl_state ≠ Init`). -/
+/-- A consumer (`DownlinkSender`). -/
 structure Consumer where
   id : Nat
   sync : Bool            -- `options.contains(SYNC)`
   keep : Bool            -- `options.contains(KEEP_LINKED)` (the result of `unlink` is discarded: no effect)
-  late : Bool := false
   deriving DecidableEq, Repr
 
 /-- `Notification` from the remote lane; `badEvent` = an event whose body the interpretation rejects. -/
@@ -106,10 +105,12 @@ def unlinkAll (s : RSt) : RSt × List (Nat × Note) :=
 /-- `ReadTaskEvent::NewConsumer`. -/
 def onAttach (s : RSt) (c : Consumer) : RSt × List (Nat × Note) :=
   match s.dl with
-  | .init => ({ s with aLinked := s.aLinked ++ [{ c with late := false }], timer := false }, [])
+  | .init => ({ s with aLinked := s.aLinked ++ [c], timer := false }, [])
   | _ =>
+    -- `send(Linked)` at once; then awaiting `synced` only if it asked for it (7d3b0a2), else registered
     if s.alive c then
-      ({ s with aSynced := s.aSynced ++ [{ c with late := true }], timer := false }, [(c.id, .linked)])
+      if c.sync then ({ s with aSynced := s.aSynced ++ [c], timer := false }, [(c.id, .linked)])
+      else ({ s with reg := s.reg ++ [c], timer := false }, [(c.id, .linked)])
     else (s, [])
 
 /-- `Notification::Linked`: `link(..)` if active. -/
@@ -128,7 +129,7 @@ def onSynced (s : RSt) : RSt × List (Nat × Note) :=
   if s.timer then ({ s with dl := .synced }, [])
   else
     ({ s with dl := .synced, aSynced := [], reg := s.reg ++ s.aSynced.filter s.alive,
-              timer := (s.reg ++ s.aSynced.filter s.alive).isEmpty },
+              timer := (s.reg ++ s.aSynced.filter s.alive).isEmpty && s.aLinked.isEmpty },
      notesTo (s.aSynced.filter s.alive)
        (if s.single && s.syncEvent then [.event s.current, .synced] else [.synced]))
 
@@ -140,7 +141,8 @@ def dispatch (s : RSt) : RSt × List (Nat × Note) :=
     ({ s with reg := s.reg.filter s.alive,
               aSynced := if s.single then s.aSynced else s.aSynced.filter s.alive,
               timer := (s.reg.filter s.alive).isEmpty
-                        && (if s.single then s.aSynced else s.aSynced.filter s.alive).isEmpty },
+                        && (if s.single then s.aSynced else s.aSynced.filter s.alive).isEmpty
+                        && s.aLinked.isEmpty },
      notesTo (s.reg.filter s.alive) [.event s.current]
        ++ (if s.single then [] else notesTo (s.aSynced.filter s.alive) [.event s.current]))
 
@@ -150,9 +152,9 @@ def onMsg (s : RSt) : RMsg → RSt × List (Nat × Note)
   | .unlinked => unlinkAll s
   | .event b => dispatch { s with syncEvent := true, current := b }
   | .badEvent =>
-    -- `current.clear()`, the interpretation fails: abort, or carry on with the cleared buffer
+    -- `current.clear()`, the interpretation fails: abort, or ignore the frame (`continue`, 47607a1)
     if s.abort then unlinkAll { s with syncEvent := true, current := .raw [] }
-    else dispatch { s with syncEvent := true, current := .raw [] }
+    else ({ s with syncEvent := true, current := .raw [] }, [])
 
 def rstep (s : RSt) : REv → RSt × List (Nat × Note)
   | .dropReader c => ({ s with dead := c :: s.dead }, [])
@@ -249,10 +251,12 @@ structure WSt where
   frames : List (Frame × Nat) := []   -- frames not yet completely read by the remote, bytes remaining
   issued : List Cmd := []         -- ghost: every command taken from a consumer
   sent : List Frame := []         -- ghost: every frame encoded
+  owed : List Nat := []           -- ghost: registered SYNC consumers for which no sync frame was encoded since
   deriving Repr
 
 def encode (s : WSt) (f : Frame) : WSt :=
-  { s with buf := s.buf + f.len s.hdr, frames := s.frames ++ [(f, f.len s.hdr)], sent := s.sent ++ [f] }
+  { s with buf := s.buf + f.len s.hdr, frames := s.frames ++ [(f, f.len s.hdr)], sent := s.sent ++ [f],
+           owed := match f with | .sync => [] | _ => s.owed }
 
 def winit (cap hdr : Nat) : WSt := encode { cap := cap, hdr := hdr } .link
 
@@ -303,7 +307,8 @@ def wmicro (s : WSt) : Option WSt :=
     else match s.regQ with
       | r :: rest =>
         -- `SuspendedResult::NewRegistration(Some(..))`
-        some { s with regQ := rest, producers := s.producers ++ [r.1], needsSync := s.needsSync || r.2 }
+        some { s with regQ := rest, producers := s.producers ++ [r.1], needsSync := s.needsSync || r.2,
+                      owed := if r.2 then s.owed ++ [r.1] else s.owed }
       | [] => if s.reqClosed then some (stopW s) else none
   | .idle =>
     if s.producers.isEmpty then
@@ -331,7 +336,7 @@ def wmicro (s : WSt) : Option WSt :=
         else
           -- the flush is pending: remember the SYNC, wait for the flush (`do_flush`)
           some { s with regQ := rest, producers := s.producers ++ [r.1], needsSync := s.needsSync || r.2,
-                        mode := .writing }
+                        mode := .writing, owed := if r.2 then s.owed ++ [r.1] else s.owed }
       | [] => if s.reqClosed then some (stopW s) else none
 
 /-- Run to quiescence (the fuel is never exhausted on the traces of the correspondence). -/
@@ -366,11 +371,11 @@ def onCommand (s : WSt) (c : Cmd) : WSt :=
 def onProducersEmpty (s : WSt) : WSt :=
   match s.mode with
   | .idle =>
-    if s.flushed || s.buf == 0 then { s with producers := [], flushed := true }
+    if s.flushed || s.buf == 0 then { s with producers := [], flushed := true, owed := [] }
     else if s.sockClosed then stopW s
-    else { s with producers := [], mode := .writing }
-  | .writing => { s with producers := [], needsSync := false }
-  | _ => { s with producers := [] }
+    else { s with producers := [], mode := .writing, owed := [] }
+  | .writing => { s with producers := [], needsSync := false, owed := [] }
+  | _ => { s with producers := [], owed := [] }
 
 def consume : Nat → List (Frame × Nat) → List (Frame × Nat) × List Frame
   | _, [] => ([], [])
@@ -386,7 +391,7 @@ def winput (s : WSt) : WEv → WSt × Nat × List Frame
   | .producerClosed id =>
     if s.producers.contains id then
       if (s.producers.erase id).isEmpty then (onProducersEmpty s, 0, [])
-      else ({ s with producers := s.producers.erase id }, 0, [])
+      else ({ s with producers := s.producers.erase id, owed := s.owed.filter (fun i => i != id) }, 0, [])
     else (s, 0, [])
   | .drain k =>
     ({ s with pipe := s.pipe - min k s.pipe, frames := (consume (min k s.pipe) s.frames).1 },
